@@ -9,7 +9,7 @@ for d in sorted(glob.glob(os.path.join(ROOT, "seeded", "*"))):
     need = (m.get("needs") or "").replace("|", "/").replace("\n", " ")
     if len(summ) > 170: summ = summ[:167] + "..."
     if len(need) > 150: need = need[:147] + "..."
-    det = ", ".join(m.get("detected_by") or []) or "**missed**"
+    det = ", ".join(m.get("detected_by") or []) or "**not detected** (see its meta.json note and section 11)"
     rows.append("| `%s` | %s | %s | %s | %s |" % (os.path.basename(d), m.get("property"), summ, need, det))
 table = "| seeded change | property | what was changed | needs | detected by |\n|---|---|---|---|---|\n" + "\n".join(rows)
 p = os.path.join(ROOT, "DESIGN.md")
